@@ -1743,13 +1743,15 @@ class CbindTwoDF(_DF):
 
 def _mk_set_2d(key):
     class S2(_Proto):
-        """a two-dimensional array is never stored as a column"""
-        qualname, variant = "DataFrame.__setitem__", f"key {key!r}: two-dimensional DataFrameColumn value"
+        """an array that is not one-dimensional (0-d scalar array, matrix, ...) is never stored as a column"""
+        qualname, variant = "DataFrame.__setitem__", f"key {key!r}: DataFrameColumn value of any dimension other than 1"
 
         def setup(self, cx):
             f = self.frame(cx)
             v = other_vector(cx, "value", f.conc["nrow"], column=True)
-            v.ndim = 2
+            nd = cx.int("ndim")
+            cx.assume(z3.And(nd >= 0, nd != 1))
+            v.ndim = nd
             return {"self": f, "args": [key, v]}
 
         def ensures(self, cx, result):
@@ -1943,3 +1945,6 @@ _bounded_only("C06", "dataiter/data_frame.py::DataFrame[every public non-in-plac
 _bounded_only("C06", "dataiter/vector.py::Vector[every public non-in-place method: no mutation, no aliasing]",
               "one driver over all public non-in-place Vector methods; the ones that also have a deductive frame/freshness contract are listed "
               "under functions_under_contract")
+
+_bounded_only("C05", "dataiter/data_frame.py::DataFrame.full_join[mixed key list: a plain name before a (left, right) pair]",
+              "full_join is a composite outside the deductive contracts; this driver covers its key-renaming loop")
